@@ -125,6 +125,11 @@ pub fn prog_json(interp: &Interpreter) -> J {
 
 /// Is this text inside the model's domain (see Abasic!SubmitLine and Lexer!Trim)?
 pub fn in_domain(text: &str) -> bool {
+    // very long lines (deep-nesting and many-subscript probes) are judged by the monitors only:
+    // lexing them in TLC costs seconds per line
+    if text.len() > 160 {
+        return false;
+    }
     let first = text.split_ascii_whitespace().next().unwrap_or("");
     if !first.is_ascii() {
         return false;
